@@ -354,7 +354,9 @@ pub fn run_heights(lo: usize, hi: usize) -> J {
 // misuse
 // ------------------------------------------------------------------------------------------
 
-pub const MISUSE: [&str; 9] = [
+pub const MISUSE: [&str; 11] = [
+    "cycle_rhs_node_of_dependent_bind",
+    "cycle_rhs_node_three_binds",
     "cycle_one_bind",
     "cycle_one_bind_long",
     "cycle_two_binds",
@@ -451,6 +453,49 @@ pub fn misuse_case(name: &str) -> Result<String, String> {
             result = catch_unwind(AssertUnwindSafe(|| st.stabilise())).map_err(crate::panic_message);
             holder.borrow_mut().take();
             keep.push(Box::new((o, m, b1, b2, v, w)));
+        }
+        "cycle_rhs_node_of_dependent_bind" | "cycle_rhs_node_three_binds" => {
+            // `outer` ends up returning a node that was built on the right-hand side of a bind
+            // whose input is `outer` itself (possibly through a further bind and a map)
+            needle = Some("cycl");
+            let w = st.var(0i64);
+            let c = st.var(10i64);
+            let slot: Rc<RefCell<Option<Incr<i64>>>> = Rc::new(RefCell::new(None));
+            let zero = st.constant(0i64);
+            let (sl, s2) = (slot.clone(), Steps(steps.clone()));
+            let outer = w.bind(move |x| {
+                s2.tick();
+                if *x == 0 { zero.clone() } else { sl.borrow().clone().unwrap() }
+            });
+            let mid = if name == "cycle_rhs_node_three_binds" {
+                let k = st.var(1i64);
+                let o2 = outer.clone();
+                let b = k.bind(move |_| o2.map(|v| v + 0));
+                keep.push(Box::new(k));
+                b
+            } else {
+                outer.clone()
+            };
+            let (sl2, cw, s3) = (slot.clone(), c.watch(), Steps(steps.clone()));
+            let inner = mid.bind(move |x| {
+                s3.tick();
+                let x = *x;
+                let s4 = Steps(s3.0.clone());
+                let n = cw.map(move |cv| {
+                    s4.tick();
+                    cv + x
+                });
+                sl2.borrow_mut().replace(n.clone());
+                n
+            });
+            let o = inner.observe();
+            st.stabilise();
+            c.set(11);
+            st.stabilise();
+            w.set(1);
+            result = catch_unwind(AssertUnwindSafe(|| st.stabilise())).map_err(crate::panic_message);
+            slot.borrow_mut().take();
+            keep.push(Box::new((o, inner, outer, w, c)));
         }
         "cross_state" => {
             needle = None;
